@@ -9,6 +9,7 @@ import (
 	"fmt"
 	"io"
 	"net"
+	"net/netip"
 	"runtime/debug"
 	"sync"
 	"sync/atomic"
@@ -47,6 +48,20 @@ func peerOf(d string) string {
 		return "B"
 	}
 	return "A"
+}
+
+// SetHook installs the hook of a proxy that is already running.
+func (p *Proxy) SetHook(h func(p *Proxy, msg Msg) [][]byte) {
+	p.mu.Lock()
+	p.Hook = h
+	p.mu.Unlock()
+}
+
+// NDelivered returns how many messages of side dir were written towards its peer.
+func (p *Proxy) NDelivered(dir string) int {
+	p.mu.Lock()
+	defer p.mu.Unlock()
+	return len(p.Delivered[dir])
 }
 
 // Sent returns the idx-th message side dir sent, waiting up to d for it.
@@ -223,8 +238,11 @@ func Connect(a, b *world.Node, hook func(p *Proxy, msg Msg) [][]byte, wait time.
 type Drain struct {
 	mu     sync.Mutex
 	Frames [][]byte
-	stop   chan struct{}
-	once   sync.Once
+	// Mismatch lists delivered frames whose accessors (what a handler sees: SrcIP, DstIP, MessageType) disagree
+	// with the frame's own bytes.
+	Mismatch []string
+	stop     chan struct{}
+	once     sync.Once
 }
 
 // StartDrain starts draining n's frame handler channel.
@@ -238,6 +256,13 @@ func StartDrain(n *world.Node) *Drain {
 				if err == nil {
 					d.mu.Lock()
 					d.Frames = append(d.Frames, append([]byte(nil), raw...))
+					if len(raw) >= 48 {
+						src, _ := netip.AddrFromSlice(raw[16:32])
+						dst, _ := netip.AddrFromSlice(raw[32:48])
+						if f.SrcIP() != src || f.DstIP() != dst || uint8(f.MessageType()) != raw[4] {
+							d.Mismatch = append(d.Mismatch, fmt.Sprintf("handler sees %s -> %s type %d, the bytes say %s -> %s type %d", f.SrcIP(), f.DstIP(), f.MessageType(), src, dst, raw[4]))
+						}
+					}
 					d.mu.Unlock()
 				}
 				f.ReturnToPool()
@@ -258,6 +283,15 @@ func (d *Drain) Take() [][]byte {
 	defer d.mu.Unlock()
 	out := d.Frames
 	d.Frames = nil
+	return out
+}
+
+// TakeMismatches returns and forgets the accessor/bytes disagreements seen so far.
+func (d *Drain) TakeMismatches() []string {
+	d.mu.Lock()
+	defer d.mu.Unlock()
+	out := d.Mismatch
+	d.Mismatch = nil
 	return out
 }
 
